@@ -10,13 +10,13 @@ PROPS = {
     },
     'C01': {
         'verus': ['program_lines', 'program_state'],
-        'kani': ['rng'],
+        'kani': ['rng', 'arrays'],
         'level': 'proof',
         'design_ref': 'DESIGN.md §6 C01',
     },
     'C03': {
         'verus': ['program_lines', 'program_state'],
-        'kani': [],
+        'kani': ['arrays'],
         'level': 'proof',
         'design_ref': 'DESIGN.md §6 C03',
     },
@@ -46,7 +46,7 @@ PROPS = {
     },
     'C16': {
         'verus': ['program_state'],
-        'kani': [],
+        'kani': ['arrays'],
         'level': 'proof',
         'design_ref': 'DESIGN.md §6 C16',
     },
